@@ -181,8 +181,10 @@ def classify_cmp(ev):
     if kl is None or kr is None:
         return ("unknown", None, atol_c)
     if kl == kr:
-        if kl != 0 and atol is not None and atol_c is not None and atol_c > 0 and in_band(kl, atol_c):
-            # an explicit absolute tolerance next to the relative one: it decides at the small end of the supported scales
+        if kl != 0 and atol_c is not None and atol_c > 0 and in_band(kl, atol_c):
+            # an absolute tolerance (explicit, or numpy's default 1e-8) next to the relative one that lies inside the range the
+            # compared quantities take over the supported scales: at the small end both sides are below it and the test is
+            # always true (whatever their signs): it decides nothing there
             return ("in-band", kl, atol_c)
         return ("relative" if kl != 0 else "dimensionless", kl, atol_c)
     return ("unknown", kl, atol_c)
